@@ -573,6 +573,11 @@ size_t ZSTD_seekable_decompress(ZSTD_seekable* zs, void* dst, size_t len, unsign
                             zs->seekTable.entries[targetFrame].checksum) {
                     return ERROR(corruption_detected);
                 }
+                /* the frame is complete : it must have regenerated exactly what the seek table says
+                 * (a shorter frame would otherwise be decoded again and again) */
+                if (zs->decompressedOffset != zs->seekTable.entries[targetFrame + 1].dOffset) {
+                    return ERROR(corruption_detected);
+                }
 
                 if (zs->decompressedOffset < offset + len) {
                     /* go back to the start and force a reset of the stream */
